@@ -264,17 +264,17 @@ def check_clock_shift_fourier(k: K):
         args = {"d": d}
         X, Z, F = M.gen_pauli_x(d), M.gen_pauli_z(d), M.fourier(d)
         k.case("gen_pauli_x", args)
-        k.cmp_ru("gen_pauli_x", args, X, k.L.ask("c17_ru", {"kind": "shift", "d": d}), "genPauli_mirror_eq")
+        k.cmp_ru("gen_pauli_x", args, X, k.L.ask("c17_ru", {"kind": "shift", "d": d}), "shiftE_eval")
         k.case("gen_pauli_z", args)
-        k.cmp_ru("gen_pauli_z", args, Z, k.L.ask("c17_ru", {"kind": "clock", "d": d}), "genPauli_mirror_eq")
+        k.cmp_ru("gen_pauli_z", args, Z, k.L.ask("c17_ru", {"kind": "clock", "d": d}), "clockE_eval")
         k.case("fourier", args)
-        k.cmp_ru("fourier", args, F, k.L.ask("c17_ru", {"kind": "fourier", "d": d}), "fourier_unitary")
+        k.cmp_ru("fourier", args, F, k.L.ask("c17_ru", {"kind": "fourier", "d": d}), "fourierE_eval")
         w = np.exp(2j * np.pi / d)
         k.close("Weyl relation Z X = omega X Z", "gen_pauli_x/gen_pauli_z", args, Z @ X, w * (X @ Z), theorem="weyl_relation")
         k.close("Fourier intertwining F X F^dagger = Z", "fourier", args, F @ X @ F.conj().T, Z, theorem="fourier_intertwines")
         k.close("Fourier unitarity", "fourier", args, F @ F.conj().T, np.eye(d), theorem="fourier_unitary")
-        k.close("X^d = I", "gen_pauli_x", args, np.linalg.matrix_power(X, d), np.eye(d), theorem="shift_pow")
-        k.close("Z^d = I", "gen_pauli_z", args, np.linalg.matrix_power(Z, d), np.eye(d), theorem="clock_pow")
+        k.close("X^d = I", "gen_pauli_x", args, np.linalg.matrix_power(X, d), np.eye(d), theorem="shift_pow_order")
+        k.close("Z^d = I", "gen_pauli_z", args, np.linalg.matrix_power(Z, d), np.eye(d), theorem="clock_pow_order")
 
 
 def check_gen_pauli(k: K):
@@ -286,7 +286,7 @@ def check_gen_pauli(k: K):
                 W = M.gen_pauli(a, b, d)
                 ops[(a, b)] = W
                 k.case("gen_pauli", args, (a, b) != (0, 0))
-                k.cmp_ru("gen_pauli", args, W, k.L.ask("c17_ru", {"kind": "gen_pauli", "d": d, "a": a, "b": b}), "genPauli_mirror_eq")
+                k.cmp_ru("gen_pauli", args, W, k.L.ask("c17_ru", {"kind": "gen_pauli", "d": d, "a": a, "b": b}), "genPauliE_eval + genPauli_mirror_eq")
                 k.close("unitarity", "gen_pauli", args, W @ W.conj().T, np.eye(d), theorem="genPauli_unitary")
         # trace-orthogonality of all d^2 operators (every pair)
         for (p, A), (q, B) in itertools.product(ops.items(), repeat=2):
@@ -307,7 +307,7 @@ def check_pauli(k: K):
                 args = {"ind": f, "is_sparse": sparse}
                 P = M.pauli(f, sparse)
                 k.case("pauli", args, ind != 0, "pauli/single")
-                k.cmp_int("pauli", args, P, res, "pauli_algebra")
+                k.cmp_int("pauli", args, P, res, "pauliString_trace_orthogonal")
         mats[ind] = dense(M.pauli(ind)).astype(complex)
     # algebra, exactly (entries are Gaussian integers)
     eps = {(1, 2): 3, (2, 3): 1, (3, 1): 2}
@@ -321,9 +321,9 @@ def check_pauli(k: K):
             else:
                 want = -1j * mats[eps[(b, a)]]
             if not np.array_equal(prod, want):
-                k.bad("product rule sigma_a sigma_b = delta I + i eps sigma_c fails", "pauli", {"a": a, "b": b}, theorem="pauli_algebra")
+                k.bad("product rule sigma_a sigma_b = delta I + i eps sigma_c fails", "pauli", {"a": a, "b": b}, theorem="pauli_sq / pauli_product / pauli_anticommute")
             if a != b and not np.array_equal(prod + mats[b] @ mats[a], np.zeros((2, 2))):
-                k.bad("anticommutation fails", "pauli", {"a": a, "b": b}, theorem="pauli_algebra")
+                k.bad("anticommutation fails", "pauli", {"a": a, "b": b}, theorem="pauli_sq / pauli_product / pauli_anticommute")
     # tensor strings
     nmax = 2 if k.quick else 3
     for n in range(2, nmax + 1):
@@ -334,15 +334,15 @@ def check_pauli(k: K):
             P = dense(M.pauli(list(s)))
             arrs[s] = P
             k.case("pauli", args, any(s), f"pauli/list{n}")
-            k.cmp_int("pauli", args, P, k.L.ask("c17_int", {"kind": "pauli", "ind": list(s)}), "pauli_trace_orthogonal")
+            k.cmp_int("pauli", args, P, k.L.ask("c17_int", {"kind": "pauli", "ind": list(s)}), "pauliString_trace_orthogonal")
         for s, t in itertools.product(strs, repeat=2):
             tr = np.trace(arrs[s].conj().T @ arrs[t])
             if tr != (2 ** n if s == t else 0):
-                k.bad(f"tr(P_s^dagger P_t) = {tr}", "pauli", {"s": list(s), "t": list(t)}, theorem="pauli_trace_orthogonal")
+                k.bad(f"tr(P_s^dagger P_t) = {tr}", "pauli", {"s": list(s), "t": list(t)}, theorem="pauliString_trace_orthogonal")
     # string / sparse list forms
     P = dense(M.pauli(["x", "Z"]))
     k.case("pauli", {"ind": ["x", "Z"]}, True, "pauli/strlist")
-    k.cmp_int("pauli", {"ind": ["x", "Z"]}, P, k.L.ask("c17_int", {"kind": "pauli", "ind": [1, 3]}), "pauli_trace_orthogonal")
+    k.cmp_int("pauli", {"ind": ["x", "Z"]}, P, k.L.ask("c17_int", {"kind": "pauli", "ind": [1, 3]}), "pauliString_trace_orthogonal")
     for s in ([2, 1], [3, 1, 2]):
         P = M.pauli(s, True)
         args = {"ind": s, "is_sparse": True}
@@ -412,7 +412,7 @@ def check_hadamard(k: K):
         res = k.L.ask("c17_int", {"kind": "hadamard", "n": n})
         res2 = k.L.ask("c17_int", {"kind": "hadamard_mirror", "n": n})
         if res["re"] != res2["re"]:
-            k.bad("closed-form and mirror model of hadamard disagree (model defect)", "hadamard", args, theorem="hadamard_mirror_eq")
+            k.bad("closed-form and mirror model of hadamard disagree (model defect)", "hadamard", args, theorem="(harness) mirror model of _hamming_distance vs closed form; equality for all n not proved in Lean")
         k.cmp_int("hadamard", args, H, res, "hadamard_orthogonal")
         sign = H / H[0, 0]
         if not np.array_equal(sign, np.array(res["re"], dtype=float).reshape(res["shape"])):
@@ -481,7 +481,7 @@ def check_basis_bell_maxent(k: K):
         for pos in range(d):
             args = {"dim": d, "pos": pos}
             k.case("basis", args, True)
-            k.cmp_int("basis", args, S.basis(d, pos), k.L.ask("c17_int", {"kind": "basis", "d": d, "pos": pos}), "basis_eq")
+            k.cmp_int("basis", args, S.basis(d, pos), k.L.ask("c17_int", {"kind": "basis", "d": d, "pos": pos}), "(model definition) basisS")
         for pos in (d, d + 1):
             k.expect_reject("basis", {"dim": d, "pos": pos}, S.basis, (d, pos), k.L.ask("c17_int", {"kind": "basis", "d": d, "pos": pos}))
     vs = []
@@ -515,7 +515,7 @@ def check_basis_bell_maxent(k: K):
                 scale = 1.0 if nrm else float(d)
                 for keep in (0, 1):
                     k.close("marginal of the maximally entangled state is I/d", "max_entangled", {**args, "keep": keep}, ptrace(rho, d, keep), scale * np.eye(d) / d, theorem="maxEnt_marginal_mixed")
-                k.close("norm", "max_entangled", args, x @ x, scale, theorem="maxEnt_marginal_mixed")
+                k.close("norm", "max_entangled", args, x @ x, scale, theorem="maxEnt_norm")
         # bell(0) = max_entangled(2)
     k.close("bell(0) = max_entangled(2)", "bell", {"idx": 0}, S.bell(0), S.max_entangled(2))
 
@@ -545,7 +545,7 @@ def check_ghz(k: K):
             nz = x[x != 0]
             if len(nz) != d or not np.all(nz == nz[0]):
                 k.bad("GHZ amplitudes are not d equal non-zero numbers", "ghz", args, theorem="ghz_support")
-            k.close("norm", "ghz", args, x @ x, 1.0, theorem="ghz_support")
+            k.close("norm", "ghz", args, x @ x, 1.0, theorem="ghz_norm")
             if not perm_axes_invariant(x, d, n, some_perms(rng, n, k.quick)):
                 k.bad("GHZ state not invariant under a permutation of the parties", "ghz", args, theorem="ghz_symmetric")
     coeffs = {2: [[3, 4], [1, 0], [-5, 12]], 3: [[1, 2, 2], [2, 3, 6]], 4: [[1, 1, 1, 1], [1, 2, 4, 10]], 5: [[1, 1, 3, 3, 4]]}
@@ -584,7 +584,7 @@ def check_w(k: K):
             k.bad("W amplitudes are not all equal", "w_state", args, theorem="w_support")
         if not perm_axes_invariant(x, 2, n, some_perms(rng, n, k.quick)):
             k.bad("W state not invariant under a permutation of the qubits", "w_state", args, theorem="w_symmetric")
-        k.cmp_int("w_state", args, v, res, "w_support (normalisation 1/sqrt(n) as documented)", kind=w_kind)
+        k.cmp_int("w_state", args, v, res, "w_amplitude / w_support / w_norm (normalisation 1/sqrt(n) as documented)", kind=w_kind)
     for c in ([3, 4], [1, 2, 2], [2, 3, 6], [1, 1, 1, 1], [1, 2, 3, 4], [1, 2, 4, 10], [1, 1, 3, 3, 4]):
         n = len(c)
         nrm = SQ(sum(x * x for x in c))
@@ -592,7 +592,7 @@ def check_w(k: K):
             args = {"num_qubits": n, "coeff": c, "form": form}
             v = S.w_state(n, cpy)
             k.case("w_state", args, True, "w_state/coeff")
-            k.cmp_int("w_state", args, v, k.L.ask("c17_int", {"kind": "w_state", "n": n, "coeff": c}), "w_support (generalised W state, documented normalisation)", kind=w_kind)
+            k.cmp_int("w_state", args, v, k.L.ask("c17_int", {"kind": "w_state", "n": n, "coeff": c}), "w_amplitude / w_support / w_norm (generalised W state, documented normalisation)", kind=w_kind)
     for (n, c) in [(1, None), (0, None), (-1, None), (4, [1, 2, 3]), (2, [1, 2, 3])]:
         k.expect_reject("w_state", {"num_qubits": n, "coeff": c}, S.w_state, (n, c), k.L.ask("c17_int", {"kind": "w_state", "n": n, "coeff": c}))
 
@@ -612,7 +612,7 @@ def check_dicke(k: K):
                 k.bad("Dicke amplitudes are not C(n,k) equal numbers", "dicke", args, theorem="dicke_support")
             if any(bin(j).count("1") != e for j in np.nonzero(x)[0]):
                 k.bad("support contains a basis state with the wrong number of excitations", "dicke", args, theorem="dicke_support")
-            k.close("norm", "dicke", args, x @ x, 1.0, theorem="dicke_support")
+            k.close("norm", "dicke", args, x @ x, 1.0, theorem="dicke_norm")
             if not perm_axes_invariant(x, 2, n, some_perms(rng, n, k.quick)):
                 k.bad("Dicke state not permutation symmetric", "dicke", args, theorem="dicke_symmetric")
             dm = S.dicke(n, e, True)
@@ -641,7 +641,7 @@ def check_tile_domino(k: K):
             k.case(name, args, True)
             k.cmp_int(name, args, v, k.L.ask("c17_int", {"kind": kind, "idx": idx}), f"{name}_orthonormal")
             if not is_product(v, 3):
-                k.bad("not a product vector", name, args, theorem=f"{name}_product")
+                k.bad("not a product vector", name, args, theorem=f"{name}_orthonormal (product vector by construction: kronV)")
         G = np.array(vs) @ np.array(vs).T
         k.close(f"{name} states orthonormal", name, {}, G, np.eye(cnt), theorem=f"{name}_orthonormal")
         for idx in (cnt, cnt + 1):
@@ -660,7 +660,7 @@ def check_gen_bell(k: K):
                 rho = S.gen_bell(a, b, d)
                 rhos[(a, b)] = rho
                 k.case("gen_bell", args, True)
-                k.cmp_ru("gen_bell", args, rho, k.L.ask("c17_ru", {"kind": "gen_bell", "d": d, "a": a, "b": b}), "genBell_orthonormal")
+                k.cmp_ru("gen_bell", args, rho, k.L.ask("c17_ru", {"kind": "gen_bell", "d": d, "a": a, "b": b}), "genBellE_eval")
                 k.close("pure (rho^2 = rho)", "gen_bell", args, rho @ rho, rho, theorem="genBell_orthonormal")
                 for keep in (0, 1):
                     k.close("marginal is I/d", "gen_bell", {**args, "keep": keep}, ptrace(rho, d, keep), np.eye(d) / d, theorem="genBell_marginal_mixed")
@@ -747,13 +747,11 @@ def check_werner(k: K):
             args = {"dim": d, "alpha": qj(ax), "in_range": al in inside}
             rho = S.werner(d, af)
             k.case("werner", args, al != 0, "werner/scalar" + ("" if al in inside else "/outside"))
-            k.cmp_rat("werner", args, rho, k.L.ask("c17_rat", {"kind": "werner", "d": d, "alpha": qj(ax)}), "werner_eq_I_minus_swap")
+            k.cmp_rat("werner", args, rho, k.L.ask("c17_rat", {"kind": "werner", "d": d, "alpha": qj(ax)}), "(model definition) werner = (I - alpha S)/(d(d - alpha))")
             k.close("trace 1", "werner", args, np.trace(rho), 1.0, theorem="werner_trace_one")
-            k.close("Hermitian", "werner", args, rho, rho.T, theorem="werner_eq_I_minus_swap")
+            k.close("Hermitian", "werner", args, rho, rho.T, theorem="(model definition) werner = (I - alpha S)/(d(d - alpha))")
             # invariance under U (x) U, exact rational unitaries
-            nU = 2 if d <= 3 else 1
-            if d == 5 and k.quick and al not in (inside[0], Fraction(1, 2), inside[-1]):
-                nU = 0
+            nU = (3 if d <= 3 else (2 if d == 4 else 1)) * (1 if k.quick else 4)
             for _ in range(nU):
                 U = rational_unitary(rng, d)
                 r = commutator_residual(np.real(rho), [U, U])
@@ -829,11 +827,9 @@ def check_isotropic(k: K):
             args = {"dim": d, "alpha": qj(ax), "in_range": al in inside}
             rho = S.isotropic(d, af)
             k.case("isotropic", args, al != 0, "isotropic" + ("" if al in inside else "/outside"))
-            k.cmp_rat("isotropic", args, rho, k.L.ask("c17_rat", {"kind": "isotropic", "d": d, "alpha": qj(ax)}), "isotropic_eq")
+            k.cmp_rat("isotropic", args, rho, k.L.ask("c17_rat", {"kind": "isotropic", "d": d, "alpha": qj(ax)}), "(model definition) isotropic = (1-alpha) I/d^2 + alpha |Omega><Omega|/d")
             k.close("trace 1", "isotropic", args, np.trace(rho), 1.0, theorem="isotropic_trace_one")
-            nU = 2 if d <= 3 else 1
-            if d == 5 and k.quick and al not in (inside[0], Fraction(1, 2), inside[-1]):
-                nU = 0
+            nU = (3 if d <= 3 else (2 if d == 4 else 1)) * (1 if k.quick else 4)
             for _ in range(nU):
                 U = rational_unitary(rng, d)
                 Uc = (U[0], -U[1], U[2])
@@ -841,18 +837,23 @@ def check_isotropic(k: K):
                 k.ctx.count("isotropic/UxconjU-invariance (exact arithmetic)")
                 if r > TOL:
                     k.bad(f"(U x conj U) rho != rho (U x conj U): residual {r:.3e}", "isotropic", {**args, "U_num_re": U[0].tolist(), "U_num_im": U[1].tolist(), "U_den": U[2]}, theorem="isotropic_UUbar_invariant")
-                # sanity of the test itself: U (x) U (no conjugate) must NOT commute for a genuinely complex U and alpha != 0
             e = k.L.ask("c17_rat", {"kind": "isotropic_pt_eigs", "d": d, "alpha": qj(ax)})["eigs"]
             check_ppt(k, "isotropic", args, rho, d, [Fraction(*e[0]), Fraction(*e[1])], ax, Fraction(-1, d - 1), Fraction(1, d + 1), "isotropic_ppt_iff")
             lam = float(np.linalg.eigvalsh((rho + rho.T) / 2).min())
             psd = Fraction(-1, d * d - 1) <= ax <= 1
             if abs(lam) > 1e-9 and (lam >= 0) != psd:
                 k.bad(f"positivity ({lam:.3e}) contradicts alpha in [-1/(d^2-1), 1]", "isotropic", args, theorem="isotropic_psd_iff")
+        # self-test of the invariance check: without the conjugate (U (x) U) a complex U must not commute with an isotropic state
+        U = rational_unitary(rng, d)
+        if commutator_residual(np.real(S.isotropic(d, 0.5)), [U, U]) < 1e-6:
+            from ..common import InfraError
+            raise InfraError("C17 self-test: generated unitary does not separate U(x)U from U(x)conj(U)")
+        k.ctx.count("isotropic/self-test: U(x)U does not commute")
         k.close("isotropic(d, 1) = |psi+><psi+|", "isotropic", {"dim": d, "alpha": [1, 1]}, S.isotropic(d, 1.0), S.max_entangled(d) @ S.max_entangled(d).T)
         for sparse in (False, True):
             mm = S.max_mixed(d, sparse)
             k.case("max_mixed", {"dim": d, "is_sparse": sparse}, True)
-            k.cmp_rat("max_mixed", {"dim": d, "is_sparse": sparse}, mm, k.L.ask("c17_rat", {"kind": "max_mixed", "d": d}), "maxMixed_eq")
+            k.cmp_rat("max_mixed", {"dim": d, "is_sparse": sparse}, mm, k.L.ask("c17_rat", {"kind": "max_mixed", "d": d}), "(model definition) maxMixed")
         k.close("isotropic(d, 0) = max_mixed(d^2)", "isotropic", {"dim": d, "alpha": [0, 1]}, S.isotropic(d, 0.0), S.max_mixed(d * d))
 
 
@@ -866,27 +867,27 @@ def check_horodecki(k: K):
             rho = S.horodecki(ffloat(a), dim)
             k.case("horodecki", args, True, f"horodecki/{dl}")
             m = k.L.ask("c17_rat", {"kind": "horodecki", "a": qj(a), "c": qj(c), "dim": dl})
-            k.cmp_rat("horodecki", args, rho, m, "horodecki_eq")
+            k.cmp_rat("horodecki", args, rho, m, "(model definition) horodecki33 / horodecki24; horodecki_trace_one")
             q = rat_array(m)
             n = q.shape[0]
             ptq = np.array([[q[(r // dl[1]) * dl[1] + cc % dl[1]][(cc // dl[1]) * dl[1] + r % dl[1]] for cc in range(n)] for r in range(n)], dtype=object)
             if sum(q[i][i] for i in range(n)) != 1:
                 k.bad("model trace is not 1 (model defect)", "horodecki", args)
             if not psd_exact(q) or not psd_exact(ptq):
-                k.bad("exact rational check: Horodecki state or its partial transpose is not PSD", "horodecki", args, theorem="horodecki_ppt (exact LDL^T certificate at this rational parameter)")
+                k.bad("exact rational check: Horodecki state or its partial transpose is not PSD", "horodecki", args, theorem="(harness) exact LDL^T certificate at this rational parameter; no Lean theorem")
             k.ctx.count("horodecki/exact PSD+PPT certificates")
         grid = [0.0, 1e-9, 0.1, 0.25, 1 / 3, 0.5, 0.7, 0.9, 1 - 1e-9, 1.0]
         for a in grid:
             args = {"a_param": a, "dim": None if dim is None else dl}
             rho = S.horodecki(a, dim)
             k.case("horodecki", args, True, f"horodecki/{dl}/float-grid")
-            k.close("trace 1", "horodecki", args, np.trace(rho), 1.0, theorem="horodecki_eq")
+            k.close("trace 1", "horodecki", args, np.trace(rho), 1.0, theorem="(model definition) horodecki33 / horodecki24; horodecki_trace_one")
             k.close("Hermitian", "horodecki", args, rho, rho.T)
             ev = np.linalg.eigvalsh(rho).min()
             pt = ptranspose(rho, tuple(dl))
             evt = np.linalg.eigvalsh((pt + pt.T) / 2).min()
             if ev < -TOL or evt < -TOL:
-                k.bad(f"not PSD ({ev:.3e}) or not PPT ({evt:.3e})", "horodecki", args, theorem="horodecki_ppt")
+                k.bad(f"not PSD ({ev:.3e}) or not PPT ({evt:.3e})", "horodecki", args, theorem="(harness) numerical eigenvalues; no Lean theorem for the Horodecki partial transpose")
     for a in (-1e-9, -0.5, 1 + 1e-9, 2.0):
         for dim in (None, [2, 4]):
             r = k.run_impl(S.horodecki, a, dim)
